@@ -222,6 +222,7 @@ run_child(void)
 	for (i = 0; i < nfd; i++)
 		fk_open();
 	aw_enable(1);
+	fk_allocs_fn = aw_count;
 	aw_reset();
 	for (i = 0; i < nlines; i++) {
 		char * l = lines[i];
